@@ -59,6 +59,7 @@ ev["suite_baseline"] = base; ev["suite_with_change"] = withp; ev["suite_unchange
 d_with = run_demos(patch_text, meta)
 sh("git checkout -q -- . ")
 d_without = run_demos(patch_text, meta)
+ev["demo_tails"] = {"with": {k: v["tail"][-400:] for k, v in d_with.items()}, "without": {k: v["tail"][-200:] for k, v in d_without.items()}}
 ev["demo_with_change"] = {k: v["rc"] for k, v in d_with.items()}
 ev["demo_without_change"] = {k: v["rc"] for k, v in d_without.items()}
 ev["demo_fails_with_change"] = any(v["rc"] != 0 for v in d_with.values())
